@@ -55,6 +55,39 @@ def bystander():
     return hw
 
 
+class InterferenceError(Exception):
+    """the bystander system, which nobody but this harness touches, did not behave like a register"""
+
+
+_LOCKSTEP = {}
+
+
+def interleave(sim):
+    """Patch THIS simulator object so that before each of its clk() calls another, unrelated system (one register) gets a
+    new input written and is clocked once: two systems of one process driven in lockstep must not disturb each other."""
+    from py4hw.base import HWSystem
+    import py4hw
+    if 'sys' not in _LOCKSTEP:
+        hw = HWSystem()
+        d, q = hw.wire('ls_d', 4), hw.wire('ls_q', 4)
+        n = hw.wire('ls_n', 4)
+        py4hw.Not(hw, 'ls_not', d, n)
+        py4hw.Reg(hw, 'ls_reg', n, q)
+        _LOCKSTEP.update(sys=hw, sim=hw.getSimulator(), d=d, q=q, v=0)
+    orig = sim.clk
+
+    def clk(cycles=1, *a, **k):
+        L = _LOCKSTEP
+        L['v'] = (L['v'] + 5) & 15
+        L['d'].put(L['v'])
+        L['sim'].clk(1)
+        if L['q'].get() != (~L['v']) & 15:
+            raise InterferenceError('bystander register shows %r after loading ~%r' % (L['q'].get(), L['v']))
+        return orig(cycles, *a, **k)
+    sim.clk = clk
+    return sim
+
+
 def all_logic(root):
     """Pre-order list of every Logic in the hierarchy."""
     out = [root]
@@ -336,7 +369,7 @@ class Explorer:
                     import traceback
                     tb = traceback.extract_tb(e.__traceback__)
                     where = ['%s:%d %s' % (f.filename.split('/')[-1], f.lineno, f.name) for f in tb[-3:]]
-                    if tb and '/mc/' in tb[-1].filename:
+                    if tb and '/mc/' in tb[-1].filename and not isinstance(e, InterferenceError):
                         raise
                     reset_prepared()
                     self.violations.append(('step', self._trace(seen, k) + [x],
